@@ -1131,7 +1131,7 @@ Proof.
   - destruct (I eq_refl) as [A B]. rewrite B. cbn. rewrite A. cbn. discriminate.
   - destruct (p_reset s); cbn;
       repeat match goal with |- context [if ?c then _ else _] => destruct c end;
-      intros U; inversion U; subst; cbn; rewrite F; discriminate.
+      intros U; inversion U; subst; cbn; try rewrite F; discriminate.
 Qed.
 
 Lemma log_full_zero s flog :
